@@ -210,3 +210,9 @@ func VerifRun_C02b() {
 	}
 	verifReach("applied")
 }
+
+// exported for the handler-level harness in package langserver
+func VerifValidUTF8(b []byte) bool { return refValidUTF8(b) }
+func VerifRefApply(doc []byte, sl, sc, el, ec uint32, text []byte) ([]byte, bool, string) {
+	return refApply(doc, sl, sc, el, ec, text)
+}
